@@ -119,7 +119,7 @@ func TestC16_Stores(t *testing.T) {
 
 // ---------------------------------------------------------------- C16 sketches
 
-var c16SketchKinds = []string{"add", "add", "add", "add", "burst", "merge", "decmerge", "copy", "encdec", "clear"}
+var c16SketchKinds = []string{"add", "add", "add", "add", "burst", "merge", "decmerge", "copy", "encdec", "clear", "vanish"}
 
 func TestC16_Sketch(t *testing.T) {
 	rapid.Check(t, func(t *rapid.T) {
